@@ -281,5 +281,28 @@ func RemoveAll(def Definition, repo repository.ClockedRepo) error {
 			return err
 		}
 	}
+
+	// also remove what was fetched from the remotes but doesn't exist locally (never
+	// merged, refused as invalid, removed locally before another fetch ...)
+	return removeAllRemoteRefs(repo, def.Namespace)
+}
+
+func removeAllRemoteRefs(repo repository.ClockedRepo, namespace string) error {
+	remotes, err := repo.GetRemotes()
+	if err != nil {
+		return err
+	}
+	for remote := range remotes {
+		refs, err := repo.ListRefs(fmt.Sprintf("refs/remotes/%s/%s/", remote, namespace))
+		if err != nil {
+			return err
+		}
+		for _, ref := range refs {
+			err = repo.RemoveRef(ref)
+			if err != nil {
+				return err
+			}
+		}
+	}
 	return nil
 }
